@@ -175,6 +175,9 @@ def _w_g1(chunk):
     r = core.Res()
     lo, hi = chunk
     for code in range(lo, hi):
+        if core.expired():
+            r.caps.append('deadline reached inside a chunk')
+            break
         check_graph(r, 1, O.k1graph(code))
     r.sample({'k': 1, 'arc_code': '0x%04x' % (hi - 1), 'accessor': O.k1graph(hi - 1)}, 1)
     return r
